@@ -25,7 +25,7 @@ Cases ==
   \cup { [runner |-> "ptrace-ban", prog |-> "sleep", at |-> a, nfiles |-> 3, destroy |-> FALSE, frozen |-> FALSE, rep |-> 200 + k] :
             a \in {5, 7, 11, 13, 17, 19, 23, 29}, k \in 1..(2 * Reps) }
   \cup { [runner |-> "ptrace-trap", prog |-> "sleep", at |-> a, nfiles |-> 3, destroy |-> FALSE, frozen |-> FALSE, rep |-> 400 + k] :
-            a \in {5, 6, 7, 8, 9, 10, 11, 13}, k \in 1..(3 * Reps) }
+            a \in {5, 7, 9, 11, 13, 21, 34, 55, 89, 144}, k \in 1..(3 * Reps) }      \* (late instants: a loaded machine starts slowly)
   \* a program whose descendants ignore signals and leave its session / process group: all of them must be
   \* gone when the cancelled run returns, and the environment must serve the next (cancelled) run
   \cup { [runner |-> r, prog |-> "tree", at |-> a, nfiles |-> 3, destroy |-> FALSE, frozen |-> FALSE, rep |-> 500 + k] :
